@@ -62,7 +62,10 @@ def run_ensemble(rng, obs):
     probe.hooks.append(hook)
     if which == 'lattice': s = LatticeSolver(dim, nbins=nbins)
     elif which == 'buckshot': s = BuckshotSolver(dim, npts=nmem)
-    else: s = SparsitySolver(dim, npts=nmem)
+    else:
+        rtol = rng.choice([None, None, 0.5, -0.5])       # radial tolerance of the space-filling start points (negative: the quick method)
+        s = SparsitySolver(dim, npts=nmem) if rtol is None else SparsitySolver(dim, npts=nmem, rtol=rtol)
+        obs.desc['rtol'] = rtol
     ncls = {'nm': NelderMeadSimplexSolver, 'powell': PowellDirectionalSolver, 'de': DifferentialEvolutionSolver}[nested]
     reused = nested != 'de' and not step and not restart and rng.random() < 0.2
     if reused:
@@ -208,6 +211,7 @@ def run_wrappers(rng, obs):
     if pen: kw['penalty'] = K.make_penalty(pen)
     if nested: kw['solver'] = {'nm': NelderMeadSimplexSolver, 'powell': PowellDirectionalSolver}[nested]
     fn = {'lattice': lattice, 'buckshot': buckshot, 'sparsity': sparsity}[which]
+    if which == 'sparsity' and rng.random() < 0.4: kw['rtol'] = rng.choice([0.5, -0.5]); obs.desc['rtol'] = kw['rtol']
     out = fn(probe, dim, **({'nbins': n} if which == 'lattice' else {'npts': n}), **kw)
     xopt, fopt, allcalls = [float(v) for v in np.atleast_1d(out[0])], float(out[1]), int(out[5])
     ck = lambda ok, what, **k2: obs.check(ok, 'ens:' + what, ensemble=which, nested=nested, map='default', monitors='wrapper', restart=False, **k2)
@@ -295,7 +299,9 @@ def run_generators(rng, obs):
         d = rng.randint(1, 2); n = rng.randint(1, 3)
         lb = [round(rng.uniform(-3, 0), 1) for _ in range(d)]; ub = [l + rng.choice([1.0, 4.0]) for l in lb]
         data = [[rng.uniform(l, u) for l, u in zip(lb, ub)] for _ in range(rng.randint(0, 3))]
-        pts = fillpts(list(lb), list(ub), n, data=[list(p) for p in data] or None)
+        rtol = rng.choice([None, None, 0.5, 2.0, -0.5])
+        pts = fillpts(list(lb), list(ub), n, data=[list(p) for p in data] or None, **({} if rtol is None else {'rtol': rtol}))
+        obs.desc['rtol'] = rtol
         ck(len(pts) == n and all(l - 1e-12 <= v <= u + 1e-12 for p in pts for v, l, u in zip(p, lb, ub)), 'space-filling points stay within their ranges',
            lb=lb, ub=ub, pts=pts)
         obs.desc.update({'lb': lb, 'ub': ub, 'npts': n, 'ndata': len(data)})
